@@ -106,11 +106,14 @@ PROPS = {
                 oracle=O.o_c13, known=["transient_qualifier_rename"]),
     "C14": dict(kind="gen", files=["Sites_Proofs.v", "gen/Sites.v", "P_C14.v", "Registry_Proofs.v"],
                 theorems=[thm("C14_map_range_sites", "Sites_Proofs"), thm("C14_imports_order", "P_C14"),
-                          thm("C14_search_order_free", "P_C14"), thm("C14_renames_refuted", "P_C14")],
+                          thm("C14_search_order_free", "P_C14"), thm("C14_renames_order_free", "P_C14"),
+                          thm("C14_renames_refuted", "P_C14")],
                 oracle=O.o_c14,
                 known=["rename_order_dependent"]),
-    "C15": dict(kind="cli", files=["Cli.v", "Cli_Proofs.v", ],
-                theorems=[thm("C15_rm", "Cli_Proofs"), thm("pin_main_run", "Pin_main_run"),
+    "C15": dict(kind="cli", files=["Cli.v", "Cli_Proofs.v", "Regen_Proofs.v", "P_C15.v"],
+                theorems=[thm("C15_rm", "Cli_Proofs"), thm("C15_regen_fixed_point_partial", "P_C15"),
+                          thm("C15_run_reads_aliases_by_lookup", "P_C15"), thm("C15_premises_hold", "P_C15"),
+                          thm("C15_full_statement_refuted", "P_C15"), thm("pin_main_run", "Pin_main_run"),
                           thm("pin_moq_new", "Pin_moq_new")]),
     "C16": dict(kind="gen", files=["Cli.v", "Cli_Proofs.v", "TmplMarker.v", ],
                 theorems=[thm("C16_dispatch", "Cli_Proofs"), thm("C16_noop_then_gofmt", "Cli_Proofs"),
